@@ -44,8 +44,11 @@ grep -m3 -A2 '^VIOLATION' "$T/out.txt"
 tail -1 "$T/out.txt"
 record() { # keep the latest verdict per (mutant, property, tier)
   local f=mutants/RESULTS.tsv key="$(basename "$PATCH")	$ID	$TIER"
+  (
+  flock 8
   touch "$f"; grep -v "^$key	" "$f" > "$f.tmp" || true
   echo "$key	$1	$(grep -m1 -o 'class=[^ ]*' "$T/out.txt" | head -1)" >> "$f.tmp"; sort -o "$f" "$f.tmp"; rm -f "$f.tmp"
+  ) 8>bin/.results.lock
 }
 if [ $rc = 1 ]; then record CAUGHT; echo "MUTANT $(basename "$PATCH") on $ID: CAUGHT"; exit 0; fi
 record "MISSED(exit $rc)"
